@@ -450,6 +450,7 @@ func c06Run(t *testing.T, sc c06Scn) func(c *vsched.Chooser) vsched.Outcome {
 func TestVerifC06(t *testing.T) {
 	defer vsched.Finish(t)
 	r := vsched.Rep()
+	lfCalibrate()
 	r.Assumption("event granularity: client operations, gate releases and virtual-time steps are interleaved in every order; code between two gates runs without harness-controlled preemption")
 	r.Assumption("orders in which a second stopper would wait on a held PID.stopLocker are represented by the order in which it starts right after the lock is released (a mutex waiter cannot be parked in a synctest bubble)")
 	var scs []vsched.Scenario
